@@ -8,6 +8,8 @@ import (
 	"context"
 	"errors"
 	"fmt"
+	"hash/fnv"
+	"io"
 	"math"
 	"os"
 	"os/exec"
@@ -114,12 +116,35 @@ func canon(v reflect.Value) string {
 	return "?"
 }
 
-// logValue is a user-defined cmdline.Value (declared through NewOption): it records the raw strings.
-type logValue struct{ log []string }
+// logValue is a user-defined cmdline.Value (declared through NewOption): it records the raw strings and refuses
+// "reject" with an error whose kind varies (fresh error, reused sentinel, typed-nil pointer).
+type logValue struct {
+	log     []string
+	errKind int
+}
+
+type rejectErr struct{ msg string }
+
+func (e *rejectErr) Error() string {
+	if e == nil {
+		return "rejected (typed nil)"
+	}
+	return e.msg
+}
+
+var errSentinel = errors.New("rejected (sentinel)")
 
 func (l *logValue) Set(s string) error {
 	if s == "reject" {
-		return errors.New("rejected")
+		switch l.errKind % 3 {
+		case 0:
+			return errors.New("rejected")
+		case 1:
+			return errSentinel
+		default:
+			var e *rejectErr
+			return e
+		}
 	}
 	l.log = append(l.log, s)
 	return nil
@@ -140,6 +165,8 @@ type decl struct {
 type fileSpec struct {
 	path  string
 	lines []string
+	raw   bool   // content given as bytes
+	data  string // raw content
 }
 
 type op struct {
@@ -148,6 +175,9 @@ type op struct {
 	decls []decl
 	files []fileSpec
 	args  []string
+	twice bool
+	args2 []string
+	h     uint64 // hash of the line: source of the harness-side variations that must not change the result
 }
 
 func encList(l []string) string {
@@ -178,7 +208,9 @@ func parseLine(line string) *op {
 	if len(f) < 2 || (f[0] != "pi" && f[0] != "pc") {
 		return nil
 	}
-	o := &op{child: f[0] == "pc", incl: f[1] == "1"}
+	hh := fnv.New64a()
+	hh.Write([]byte(line)) //nolint:errcheck
+	o := &op{child: f[0] == "pc", incl: f[1] == "1", h: hh.Sum64()}
 	sec := 0
 	for _, w := range f[2:] {
 		if sec < 4 {
@@ -197,6 +229,11 @@ func parseLine(line string) *op {
 				continue
 			}
 		}
+		if sec == 4 && w == "B" {
+			sec = 5
+			o.twice = true
+			continue
+		}
 		switch sec {
 		case 1:
 			p := strings.Split(w, ":")
@@ -214,6 +251,10 @@ func parseLine(line string) *op {
 			}
 			o.decls = append(o.decls, d)
 		case 2:
+			if i := strings.IndexByte(w, '='); i >= 0 {
+				o.files = append(o.files, fileSpec{path: string(hx.UnHex(w[:i])), raw: true, data: string(hx.UnHex(w[i+1:]))})
+				break
+			}
 			p := strings.Split(w, ":")
 			if len(p) != 2 {
 				return nil
@@ -222,6 +263,8 @@ func parseLine(line string) *op {
 		case 3: // oracle entries are for the model only
 		case 4:
 			o.args = append(o.args, string(hx.UnHex(w)))
+		case 5:
+			o.args2 = append(o.args2, string(hx.UnHex(w)))
 		default:
 			return nil
 		}
@@ -231,14 +274,32 @@ func parseLine(line string) *op {
 
 // ---------------------------------------------------------------------------------------------- execution
 
+// spare returns a copy of args that is a prefix of a larger array (as os.Args[1:] cut from a bigger slice would be):
+// Parse splices response files into its argument slice, which must not depend on the spare capacity.
+func spare(args []string, extra int) []string {
+	backing := make([]string, len(args)+extra)
+	copy(backing, args)
+	for i := len(args); i < len(backing); i++ {
+		backing[i] = "SPARE-CAPACITY"
+	}
+	return backing[:len(args):len(backing)]
+}
+
+var extras = []int{0, 0, 1, 2, 3, 7, 16, 64, 1000}
+
 // execute declares the options, runs Parse and renders the result. On the fatal path it does not return.
 func execute(o *op) string {
 	cl := cmdline.New(o.incl)
+	h := o.h
+	bit := func() bool { b := h&1 == 1; h = h>>1 | h<<63; return b }
+	if o.child && bit() {
+		cl.SetWriter(os.Stdout)
+	}
 	renderers := make([]func() string, 0, len(o.decls))
-	for _, d := range o.decls {
+	for k, d := range o.decls {
 		var opt *cmdline.Option
 		if d.kind == "log" {
-			lv := &logValue{log: append([]string(nil), d.defs...)}
+			lv := &logValue{log: append([]string(nil), d.defs...), errKind: int(o.h>>8) + k}
 			opt = cl.NewOption(lv)
 			renderers = append(renderers, func() string {
 				p := make([]string, len(lv.log))
@@ -287,15 +348,30 @@ func execute(o *op) string {
 				return canon(e)
 			})
 		}
+		// the remaining setters of Option must not influence parsing, in whatever order they are called
+		if bit() {
+			opt.SetUsage(fmt.Sprintf("usage text of option %d", k))
+		}
+		if bit() {
+			opt.SetArg("ARG")
+		}
 		if d.single != 0 {
 			opt.SetSingle(rune(d.single))
+		}
+		if bit() {
+			opt.SetDefault("shown default")
 		}
 		if d.hasName {
 			opt.SetName(d.name)
 		}
 	}
-	args := append([]string(nil), o.args...)
+	args := spare(o.args, extras[int(o.h>>16)%len(extras)])
 	rest := cl.Parse(args)
+	var rest1 []string
+	if o.twice {
+		rest1 = append([]string(nil), rest...)
+		rest = cl.Parse(spare(o.args2, extras[int(o.h>>24)%len(extras)]))
+	}
 	var sb strings.Builder
 	sb.WriteString("ok")
 	for _, r := range renderers {
@@ -306,6 +382,13 @@ func execute(o *op) string {
 	for _, s := range rest {
 		sb.WriteByte(' ')
 		sb.WriteString(hx.Hex([]byte(s)))
+	}
+	if o.twice {
+		sb.WriteString(" ||")
+		for _, s := range rest1 {
+			sb.WriteByte(' ')
+			sb.WriteString(hx.Hex([]byte(s)))
+		}
 	}
 	return sb.String()
 }
@@ -330,12 +413,16 @@ func ensureDir() {
 
 func writeFiles(o *op) {
 	for _, f := range o.files {
-		var sb strings.Builder
-		for _, l := range f.lines {
-			sb.WriteString(l)
-			sb.WriteByte('\n')
+		content := f.data
+		if !f.raw {
+			var sb strings.Builder
+			for _, l := range f.lines {
+				sb.WriteString(l)
+				sb.WriteByte('\n')
+			}
+			content = sb.String()
 		}
-		if err := os.WriteFile(filepath.Join(workDir, f.path), []byte(sb.String()), 0o600); err != nil {
+		if err := os.WriteFile(filepath.Join(workDir, f.path), []byte(content), 0o600); err != nil {
 			panic(err)
 		}
 	}
@@ -348,35 +435,108 @@ func removeFiles(o *op) {
 }
 
 const versionMark = "VERSIONMARK"
+const fxMark = "FXMARK"
+
+// registerExitFuncs registers the marker function and, depending on the line, exit functions that panic in various
+// ways: atexit.Exit must still run the others and exit with the requested status.
+func registerExitFuncs(h uint64) {
+	variant := int(h>>32) % 6
+	boom := func() {
+		switch variant {
+		case 1:
+			panic("exit function panics with a string")
+		case 2:
+			panic(errors.New("exit function panics with an error"))
+		case 3:
+			var m map[string]int
+			m["x"] = 1 // runtime error
+		case 4:
+			var e *rejectErr
+			panic(e)
+		case 5:
+			panic(nil) //nolint:govet
+		}
+	}
+	atexit.RecoveryHandler = nil // the recovered panics of the exit functions are not part of the observation
+	// a function that is registered and unregistered again must not run
+	id := atexit.Register(func() { fmt.Println("UNREGISTERED-RAN") })
+	defer atexit.Unregister(id)
+	if variant != 0 && h>>40&1 == 0 {
+		atexit.Register(boom) // registered first: runs after the marker
+	}
+	atexit.Register(func() {
+		fmt.Println("ATEXIT")
+		os.Stdout.Sync() //nolint:errcheck
+	})
+	if variant != 0 && h>>40&1 == 1 {
+		atexit.Register(boom) // registered last: runs before the marker
+	}
+}
+
+type failingWriter struct{}
+
+func (failingWriter) Write([]byte) (int, error) { return 0, errors.New("write fails") }
+
+// runFx drives the exported fatal entry points: fx <msg|err|iferr|ifnil|write> <def|out|fail>
+func runFx(f []string) {
+	cl := cmdline.New(false)
+	switch f[2] {
+	case "out":
+		cl.SetWriter(os.Stdout)
+	case "fail":
+		cl.SetWriter(failingWriter{})
+	}
+	switch f[1] {
+	case "msg":
+		cl.FatalMsg(fxMark)
+	case "err":
+		cl.FatalError(errors.New(fxMark))
+	case "iferr":
+		cl.FatalIfError(errors.New(fxMark))
+	case "ifnil":
+		cl.FatalIfError(nil)
+	case "write":
+		fmt.Fprint(cl, fxMark) //nolint:errcheck
+	}
+	fmt.Println("\nR returned")
+}
 
 func runChild(line string) {
+	hh := fnv.New64a()
+	hh.Write([]byte(line)) //nolint:errcheck
+	cmdline.AppVersion = versionMark
+	cmdline.BuildNumber = "B"
+	cmdline.VCSModified = false
+	registerExitFuncs(hh.Sum64())
+	if f := strings.Fields(line); len(f) == 3 && f[0] == "fx" {
+		runFx(f)
+		return
+	}
 	o := parseLine(line)
 	if o == nil {
 		fmt.Println("R bad-op")
 		return
 	}
-	cmdline.AppVersion = versionMark
-	cmdline.BuildNumber = "B"
-	cmdline.VCSModified = false
-	atexit.Register(func() {
-		fmt.Println("ATEXIT")
-		os.Stdout.Sync() //nolint:errcheck
-	})
-	fmt.Println("R " + hx.Safe(func() string { return execute(o) }))
+	fmt.Println("\nR " + hx.Safe(func() string { return execute(o) }))
 }
 
-// hangSeen is set once a child has timed out twice in a row: later lines then get a single short attempt.
-var hangSeen bool
+// hangs counts confirmed hangs of this process; after three the rest of the stream is skipped.
+var hangs int
 
 func viaChild(line string) string {
+	if hangs >= 3 {
+		return "skipped-after-crash"
+	}
 	out := childOnce(line, 5*time.Second)
-	if out != "child-timeout" || hangSeen {
+	if out != "child-timeout" {
 		return out
 	}
-	// a loaded machine can starve a child for seconds: try once more with a generous limit before calling it a hang
-	out = childOnce(line, 40*time.Second)
+	if hangs == 0 {
+		// a loaded machine can starve a child for seconds: try once more with a generous limit before calling it a hang
+		out = childOnce(line, 20*time.Second)
+	}
 	if out == "child-timeout" {
-		hangSeen = true
+		hangs++
 	}
 	return out
 }
@@ -384,7 +544,8 @@ func viaChild(line string) string {
 func childOnce(line string, limit time.Duration) string {
 	ctx, cancel := context.WithTimeout(context.Background(), limit)
 	defer cancel()
-	cmd := exec.CommandContext(ctx, os.Args[0], "child", line)
+	cmd := exec.CommandContext(ctx, os.Args[0], "child") // the line goes through stdin: it may exceed the argv limit
+	cmd.Stdin = strings.NewReader(line)
 	cmd.Dir = workDir
 	var so, se bytes.Buffer
 	cmd.Stdout = &so
@@ -417,10 +578,30 @@ func childOnce(line string, limit time.Duration) string {
 			version = "longversion"
 		}
 	}
+	if strings.Contains(so.String(), "UNREGISTERED-RAN") {
+		return "child:unregistered-exit-function-ran"
+	}
+	if strings.HasPrefix(line, "fx ") {
+		where := "none"
+		switch {
+		case strings.Contains(so.String(), fxMark):
+			where = "out"
+		case strings.Contains(se.String(), fxMark):
+			where = "err"
+		}
+		switch {
+		case status == 0 && result == "returned" && !ranAtexit:
+			return "returned:" + where
+		case status == 1 && ranAtexit && result == "":
+			return "fatal:" + where
+		}
+		return fmt.Sprintf("child:status=%d:atexit=%v:result=%q", status, ranAtexit, result)
+	}
+	usage := strings.Contains(se.String(), "Usage: ") || strings.Contains(so.String(), "Usage: ")
 	switch {
 	case status == 0 && result != "" && !ranAtexit:
 		return result
-	case status == 1 && ranAtexit && result == "" && strings.Contains(se.String(), "Usage: "):
+	case status == 1 && ranAtexit && result == "" && usage:
 		return "help"
 	case status == 1 && ranAtexit && result == "":
 		return "fatal"
@@ -433,22 +614,49 @@ func childOnce(line string, limit time.Duration) string {
 type area struct{}
 
 func (area) Run(line string) string {
+	if hangs >= 3 {
+		return "skipped-after-crash"
+	}
+	ensureDir()
+	if strings.HasPrefix(line, "fx ") {
+		if len(strings.Fields(line)) != 3 {
+			return "bad-op"
+		}
+		return viaChild(line)
+	}
 	o := parseLine(line)
 	if o == nil {
 		return "bad-op"
 	}
-	ensureDir()
 	writeFiles(o)
 	defer removeFiles(o)
 	if o.child {
 		return viaChild(line)
 	}
-	return execute(o)
+	// in-process with a watchdog: a looping Parse must not stall the stream
+	ch := make(chan string, 1)
+	go func() { ch <- hx.Safe(func() string { return execute(o) }) }()
+	select {
+	case r := <-ch:
+		return r
+	case <-time.After(8 * time.Second):
+	}
+	// starved or hung? ask a child (the goroutine may still finish; its result is then discarded)
+	out := childOnce(line, 15*time.Second)
+	if out == "child-timeout" {
+		hangs = 3
+		return "hang"
+	}
+	return out
 }
 
 func main() {
-	if len(os.Args) == 3 && os.Args[1] == "child" {
-		runChild(os.Args[2])
+	if len(os.Args) == 2 && os.Args[1] == "child" {
+		line, err := io.ReadAll(os.Stdin)
+		if err != nil {
+			os.Exit(4)
+		}
+		runChild(string(line))
 		return
 	}
 	defer func() {
